@@ -38,7 +38,8 @@ CallsA ==     \* the content mutators of the statement
     [] FAMILY = "mini3" -> {[op |-> "Pop"], [op |-> "Push", xs |-> <<"a">>], [op |-> "Remove", i |-> 0], [op |-> "Insert", x |-> "b", i |-> 0]}
     \* "policy": a push policy (approving a and b) is installed; Push consults it INSIDE its critical section
     [] FAMILY = "policy" -> {[op |-> "Push", xs |-> <<"a">>], [op |-> "Push", xs |-> <<"a", "b">>], [op |-> "Pop"], [op |-> "Insert", x |-> "b", i |-> 0],
-                             [op |-> "Push", xs |-> <<"a", "c">>]}       \* c is REJECTED: the error is recorded inside the same critical section
+                             [op |-> "Push", xs |-> <<"a", "c">>],       \* c is REJECTED: the error is recorded inside the same critical section
+                             [op |-> "SetMutex", dep |-> FALSE]}         \* asked again while in use: the mutex in place stays (no lock is taken)
     [] OTHER -> {[op |-> "Pop"], [op |-> "Push", xs |-> <<"a">>]}
 
 InitElems(n) == CASE n = 0 -> <<>> [] n = 1 -> <<"p">> [] n = 2 -> <<"p", "q">> [] OTHER -> <<"p", "q", "r">>
@@ -62,6 +63,7 @@ Cur(g) == prog[g][ip[g]]
 ReachesLock(s, c) ==
   CASE c.op \in {"Pop", "Reverse"}    -> Len(s.e) > 0
     [] c.op \in {"Insert", "Replace"} -> c.x # Nil
+    [] c.op = "SetMutex" -> FALSE
     [] OTHER -> TRUE
 
 Finish(g, r) == /\ rets' = [rets EXCEPT ![g] = Append(@, r)]
